@@ -560,20 +560,26 @@ class Prop(fw.PropBase):
                             % (len(dis), sorted(set(d['kind'] for d in dis)), json.dumps(d0, default=str)[:1500]))
 
     # ---------------------------------------------------------------- search
-    def failing(self, case, r):
-        """first (run, query, got, expected) where the implementation's answer differs from the specification"""
+    def failing_all(self, case, r):
+        """per run, the first (run, query, got, expected) where the implementation's answer differs from the specification"""
         if r.get('error'):
-            return (0, None, r['error'], None)
+            return [(0, None, r['error'], None)]
+        out = []
         for j, (run, got) in enumerate(zip(case['history'], r['runs'])):
             g, e = canon_impl_run(got), spec_run(case['vcf'], run)
             if g != e:
                 if g == [-1] or e == [-1] or len(g) != len(e):
-                    return (j, None, g, e)
-                k = next(k for k in range(len(e)) if g[k] != e[k])
-                return (j, k, g[k], e[k])
-        return None
+                    out.append((j, None, g, e))
+                else:
+                    k = next(k for k in range(len(e)) if g[k] != e[k])
+                    out.append((j, k, g[k], e[k]))
+        return out
 
-    def shrink(self, case, key):
+    def failing(self, case, r):
+        fa = self.failing_all(case, r)
+        return fa[0] if fa else None
+
+    def shrink(self, case, key, HD=''):
         """greedy, batched: drop runs / queries / records / settings while the implementation still deviates from the
         specification (all candidates of a round run in one process of the real class)"""
         def variants(c):
@@ -600,15 +606,20 @@ class Prop(fw.PropBase):
                 for f, v in (('ignore', None), ('select', None), ('chrom', None), ('phased', True)):
                     if cf[f] != v:
                         yield {'vcf': c['vcf'], 'history': h[:j] + [dict(h[j], cfg=dict(cf, **{f: v}))] + h[j + 1:]}
-        def key_of(c, r):
-            f = self.failing(c, r)
-            return None if f is None else self.classify(c, f)[0]
+        def keys_of(c, r):
+            ks = set()
+            for f in self.failing_all(c, r):
+                k = self.classify(c, f)[0]
+                ks.add(k)
+                if HD and f[0] > 0:
+                    ks.add(k + HD)
+            return ks
         for _ in range(7):
             cands = [c for c in itertools.islice(variants(case), 150) if precondition(c)]
             if not cands:
                 break
             res = fw.run_impl('impl_c18.py', {'cases': cands})['cases']
-            ok = [c for c, r in zip(cands, res) if key_of(c, r) == key]
+            ok = [c for c, r in zip(cands, res) if key in keys_of(c, r)]
             if not ok:
                 break
             case = min(ok, key=lambda c: len(json.dumps(c)))
@@ -622,10 +633,6 @@ class Prop(fw.PropBase):
         q = case['history'][j]['queries'][k]
         mode = ('use_cache' if cf['cache'] else '') + ('+lazyLoad' if cf['lazy'] else '') or 'eager'
         where = 'absent-contig' if q[1] not in case['vcf']['contigs'] else 'site'
-        if (where == 'site' and cf['cache'] and cf['lazy'] and cacheable(q[1]) and
-                any(r['cfg']['cache'] and not same_sem(r['cfg'], cf) and any(x[1] == q[1] for x in r['queries'])
-                    for r in case['history'][:j])):
-            where += ':after-a-cache-run-with-other-settings-on-this-contig'
         key = '%s:%s:%s' % ('has_location' if q[0] else 'getAllelesAt', mode, where)
         what = ('run %d of %d [%s]: call %d %s returned %s; the VCF demands %s'
                 % (j + 1, len(case['history']), flags(cf), k + 1, describe_query(q), show_answer(got), show_answer(exp)))
@@ -640,32 +647,45 @@ class Prop(fw.PropBase):
             corpus, rnd, exh = self.make_cases()
             cases = corpus + rnd + exh
             res = run_impl_cases(cases)
-        found = {}
+        HD = ':only-after-earlier-runs-on-the-same-cache-dir'
+        fails = []
         for c, r in zip(cases, res):
-            if not precondition(c):
-                continue
-            f = self.failing(c, r)
-            if f is None:
-                continue
-            key, _ = self.classify(c, f)
+            if precondition(c):
+                for f in self.failing_all(c, r):
+                    fails.append((c, f))
+        # does the failing run also fail on a fresh cache directory?  (one batch on the real class)
+        later = [(c, f) for c, f in fails if f[0] > 0 and c['history'][f[0]]['cfg']['cache']][:400]
+        alone = [{'vcf': c['vcf'], 'history': [c['history'][f[0]]]} for c, f in later]
+        ares = run_impl_cases(alone) if alone else []
+        hist_dep = set((id(c), f[0]) for (c, f), a, r in zip(later, alone, ares) if self.failing(a, r) is None)
+        found = {}
+        for c, f in fails:
+            key = self.classify(c, f)[0] + (HD if (id(c), f[0]) in hist_dep else '')
             size = len(json.dumps(c))
             if key not in found or size < found[key][0]:
                 found[key] = (size, c)
         done = set()
-        order = sorted(found, key=lambda k: (':after-a-cache-run' not in k, found[k][0], k))
+        order = sorted(found, key=lambda k: (HD not in k, found[k][0], k))
         for key in order[:5]:
             if len(self.witnesses) >= 3:
                 break
             c = found[key][1]
             try:
-                c = self.shrink(c, key)
+                c = self.shrink(c, key, HD)
             except Exception as e:
                 self.notes.append('shrink failed: %r' % (e,))
             r = fw.run_impl('impl_c18.py', {'cases': [c]})['cases'][0]
-            f = self.failing(c, r)
-            if f is None:
+            fa = self.failing_all(c, r)
+            if not fa:
                 continue
+            base = key[:-len(HD)] if key.endswith(HD) else key
+            f = next((x for x in fa if self.classify(c, x)[0] == base and (x[0] > 0 or not key.endswith(HD))), fa[0])
             key2, what = self.classify(c, f)
+            if key.endswith(HD) and f[0] > 0:
+                a = {'vcf': c['vcf'], 'history': [c['history'][f[0]]]}
+                if self.failing(a, fw.run_impl('impl_c18.py', {'cases': [a]})['cases'][0]) is None:
+                    key2 += HD
+                    what += ' (the same run on a fresh cache directory answers correctly)'
             if key2 in done:
                 continue
             done.add(key2)
